@@ -83,6 +83,7 @@ type Run struct {
 	extra       map[string]any
 	assumptions []string
 	rule        string
+	childRules  []string
 	exhaustive  bool
 	capsHit     []string
 	viols       map[string]Violation
@@ -106,6 +107,7 @@ type childResult struct {
 	Violations  []Violation    `json:"violations"`
 	Extra       map[string]any `json:"extra"`
 	Samples     []any          `json:"samples"`
+	Rule        string         `json:"rule"`
 }
 
 // RunChild runs another harness binary (e.g. the same harness built with other tags) as a
@@ -155,7 +157,10 @@ func (r *Run) RunChild(label, bin string, args ...string) {
 	for _, e := range cr.EngineErr {
 		r.engineErr = append(r.engineErr, label+": "+e)
 	}
-	r.extra["child_"+label] = map[string]any{"evaluations": cr.Evals, "distinct": cr.Distinct, "extra": cr.Extra}
+	r.extra["child_"+label] = map[string]any{"evaluations": cr.Evals, "distinct": cr.Distinct, "extra": cr.Extra, "rule": cr.Rule}
+	if cr.Rule != "" {
+		r.childRules = append(r.childRules, "["+label+" build] "+cr.Rule)
+	}
 	for _, s := range cr.Samples {
 		if len(r.samples) < r.maxSamples+4 {
 			r.samples = append(r.samples, map[string]any{"build": label, "case": s})
@@ -343,7 +348,7 @@ func fileKey(k string) string {
 func (r *Run) Finish() {
 	if *fChildOut != "" {
 		cr := childResult{Evals: r.evals.Load(), Distinct: len(r.distinct), States: r.states, Transitions: r.transitions,
-			Traces: r.traces, Exhaustive: r.exhaustive, Caps: r.capsHit, EngineErr: r.engineErr, Extra: r.extra, Samples: r.samples}
+			Traces: r.traces, Exhaustive: r.exhaustive, Caps: r.capsHit, EngineErr: r.engineErr, Extra: r.extra, Samples: r.samples, Rule: r.rule}
 		for _, v := range r.viols {
 			cr.Violations = append(cr.Violations, v)
 		}
@@ -382,6 +387,9 @@ func (r *Run) Finish() {
 	cov["evaluations"] = r.evals.Load()
 	cov["distinct_nontrivial"] = len(r.distinct) + r.distinctAdd
 	cov["rule"] = r.rule
+	for _, cr := range r.childRules {
+		cov["rule"] = cov["rule"].(string) + " || " + cr
+	}
 	if len(r.samples) == 0 {
 		// fall back to a few of the distinct case identities recorded during the run
 		r.samples = []any{}
